@@ -583,3 +583,81 @@ def vec_build(inp, W):
 def vec_equal(inp, W):
     a, b, c = inp["a"], inp["b"], inp["c"]
     return {"ab": bool(a.equal(b)), "ba": bool(b.equal(a)), "bc": bool(b.equal(c)), "ac": bool(a.equal(c)), "aa": bool(a.equal(a))}
+
+# ---------------------------------------------------------------------------- C14 restricted / aliased reads
+
+@op
+def io_alias(inp, W):
+    di = W.di
+    from dataiter import io as dio
+    alias = inp["alias"]
+    target = {"read_csv": (di.DataFrame, "read_csv"), "read_geojson": (di.GeoJSON, "read"), "read_json": (di.ListOfDicts, "read_json"),
+              "read_npz": (di.DataFrame, "read_npz"), "read_parquet": (di.DataFrame, "read_parquet")}[alias]
+    cls, name = target
+    rec = {}
+    marker = object()
+    def recorder(*a, **k):
+        rec["args"] = list(a); rec["kwargs"] = dict(k)
+        return "RESULT"
+    old = cls.__dict__[name]
+    setattr(cls, name, staticmethod(recorder))
+    try:
+        kwargs = {k: v for k, v in inp["kwargs"]}
+        out = getattr(dio, alias)(inp["path"], **kwargs)
+    finally:
+        setattr(cls, name, old)
+    return {"returned_target_result": out == "RESULT", "args": rec.get("args"), "kwargs": rec.get("kwargs")}
+
+def _json_text(W, module, value):
+    """world split: real -> real JSON text; symbolic -> token + json stub installed by the caller"""
+    import json
+    return json.dumps(value)
+
+@op
+def read_restrict(inp, W):
+    """reader with a column/key restriction vs. read-everything-then-select"""
+    import contextlib, json, os, tempfile
+    di = W.di
+    kind = inp["reader"]
+    records = inp["records"]          # list of dicts (JSON) or list of rows (CSV)
+    cols = inp["cols"]
+    from . import stubs
+    if kind in ("DataFrame.from_json", "ListOfDicts.from_json"):
+        cls = di.DataFrame if kind.startswith("DataFrame") else di.ListOfDicts
+        mod = __import__("dataiter.data_frame" if cls is di.DataFrame else "dataiter.list_of_dicts", fromlist=["x"])
+        kw = "columns" if cls is di.DataFrame else "keys"
+        if W.sym:
+            with stubs.patched(mod, "json", stubs.JsonStub(mod.json, records)):
+                full = cls.from_json("<text>")
+                part = cls.from_json("<text>", **{kw: cols})
+        else:
+            text = json.dumps(records)
+            full = cls.from_json(text)
+            part = cls.from_json(text, **{kw: cols})
+        return {"full": full, "part": part}
+    if kind == "ListOfDicts.read_csv":
+        header = inp["header"]
+        rows = inp["rows"]
+        if W.sym:
+            mod = __import__("dataiter.list_of_dicts", fromlist=["x"])
+            class CsvStub:
+                DictWriter = mod.csv.DictWriter; QUOTE_MINIMAL = mod.csv.QUOTE_MINIMAL
+                @staticmethod
+                def reader(f, dialect=None, delimiter=","):
+                    return iter([list(r) for r in rows])
+            with stubs.patched(mod, "csv", CsvStub), stubs.patched(mod.util, "xopen", lambda *a, **k: stubs.StubFile()):
+                full = di.ListOfDicts.read_csv("x.csv", header=header)
+                part = di.ListOfDicts.read_csv("x.csv", header=header, keys=cols)
+        else:
+            d = tempfile.mkdtemp(prefix="vf_csv_")
+            try:
+                p = os.path.join(d, "x.csv")
+                import csv
+                with open(p, "w", newline="") as f:
+                    csv.writer(f, dialect="unix", quoting=csv.QUOTE_MINIMAL).writerows(rows)
+                full = di.ListOfDicts.read_csv(p, header=header)
+                part = di.ListOfDicts.read_csv(p, header=header, keys=cols)
+            finally:
+                import shutil; shutil.rmtree(d, ignore_errors=True)
+        return {"full": full, "part": part}
+    raise ValueError(kind)
